@@ -3,6 +3,7 @@ package checks
 import (
 	"encoding/json"
 	"fmt"
+	"strings"
 
 	"github.com/mit-pdos/go-journal/vrt"
 	"verif/fsck"
@@ -42,7 +43,11 @@ func c15Job(raw json.RawMessage) (interface{}, error) {
 		vrt.Quiesce()
 	})
 	if res.Verdict == vrt.VPanic {
-		return out, nil // size not accepted (MakeNfs refuses it loudly)
+		if strings.Contains(res.Msg, "configuration makes no sense") {
+			return out, nil // size not accepted (MakeNfs refuses it loudly)
+		}
+		viol("format-crashed|"+firstLine(res.Msg), "formatting panics: "+res.Msg+"\n"+res.Stack)
+		return out, nil
 	}
 	if v := VerdictViolation(&res, "C15", "format"); v != nil {
 		viol(v.Sig, v.Detail)
@@ -205,9 +210,14 @@ func C15(r *report.Report, tier string) {
 			add(uint64(int64(k*32768)+d), d >= -2 && d <= 2)
 		}
 	}
+	for k := uint64(4); k <= 8; k++ { // more bitmap blocks: DataStart moves by one block per 32768
+		for d := int64(-3); d <= 3; d++ {
+			add(uint64(int64(k*32768)+d), false)
+		}
+	}
 	add(10000, true)
 	add(102400, true)
-	r.Rule = "every disk size in [1530,1700] (the smallest accepted size is found, not assumed: a panic in MakeNfs = not accepted) and in [k*32768-40, k*32768+40] for k=1..3, plus 10000 and 102400: regions log | block bitmap | inode bitmap | inode table | data adjacent, non-empty, inside the disk and equal to an independent computation; fresh image: fsck clean, data-region bitmap bits == blocks of the root directory, inode bits == {0,1}, allocators == bitmaps; fill (every size below 1700, +-2 around each bitmap-block boundary, the two large sizes; thorough: every size): WRITE until no space, then the allocator has 0 free blocks, fsck is clean, every data block - no block less, none outside - is owned; delete everything: free counts return to the fresh values. distinct_nontrivial = accepted sizes"
+	r.Rule = "every disk size in [1530,1700] (the smallest accepted size is found, not assumed: a panic in MakeNfs = not accepted) and in [k*32768-40, k*32768+40] for k=1..3, [k*32768-3, k*32768+3] for k=4..8, plus 10000 and 102400 (a panic while formatting other than the documented refusal is a violation): regions log | block bitmap | inode bitmap | inode table | data adjacent, non-empty, inside the disk and equal to an independent computation; fresh image: fsck clean, data-region bitmap bits == blocks of the root directory, inode bits == {0,1}, allocators == bitmaps; fill (every size below 1700, +-2 around each bitmap-block boundary, the two large sizes; thorough: every size): WRITE until no space, then the allocator has 0 free blocks, fsck is clean, every data block - no block less, none outside - is owned; delete everything: free counts return to the fresh values. distinct_nontrivial = accepted sizes"
 	accepted, minAcc := 0, uint64(0)
 	par.Map("c15", jobs, par.Options{Deadline: Deadline}, func(i int, res *par.Result) {
 		if res.Skipped {
